@@ -40,7 +40,7 @@ func checkC14(ctx *Ctx) *Result {
 	rt, ok := requestTableGuards(ctx, r)
 	if ok {
 		for _, rp := range rt.Paths {
-			if !isPreflightPath(rp) || rp.Is(aDebug) || rp.A[aAsterisk] != -1 || rp.A[aACRH] != 1 {
+			if !isPreflightPath(rp) || rp.Is(aDebug) || rp.A[aAsterisk] == 1 || rp.A[aACRH] != 1 {
 				continue
 			}
 			desc := rp.Describe()
